@@ -17,6 +17,7 @@ def maxabs(case):
 # predicate ops: argument signature (same letters as corr.OPSIG) — registered into corr.OPSIG
 PRED_SIG = {
     "P01": ("GHHV", 0),
+    "P07": ("TTT", 0),
 }
 for k, v in PRED_SIG.items(): corr.OPSIG[k] = v
 
@@ -32,6 +33,20 @@ PROPS["C01"] = dict(
     n=dict(quick=(20, 40), thorough=(300, 600)),
     assumptions=["model = hand-written Gallina mirror of the C++ (coq/SO2.v ... SGal3.v, Rn.v); tied to /repo by exact comparison over the rational scalar on this run's cases",
                  "theorems are over Coq's classical reals (exact arithmetic); IEEE rounding is only tested (double predicate sweep, tolerance 1e-10 * (1+max|coordinate|)^2)"],
+)
+
+PROPS["C07"] = dict(
+    vfiles=["Properties_C07.v"], level="proof",
+    groups=BASE_GROUPS + ["R2", "R9"],
+    corr_ops=["Generator", "Hat", "Vee", "Bracket", "Inner", "InnerWeights", "WeightedNorm", "SqWeightedNorm", "SmallAdj"],
+    preds=[dict(op="P07", pairs=["hat(t)=sum t_i*Generator(i)", "Vee(hat(t))=t", "hat(Bracket(a,b))=[hat a,hat b]", "bracket antisymmetric",
+                                 "Jacobi identity", "inner(a,b)=trace(hat a * hat b^T)", "InnerWeights symmetric", "squaredWeightedNorm=inner(t,t)",
+                                 "hat linear", "out-of-range Generator index raises invalid_argument", "InnerWeights positive definite"],
+                dtol=1e-9, dscale=lambda c: (1 + maxabs(c)) ** 3)],
+    n=dict(quick=(25, 40), thorough=(300, 600)),
+    assumptions=["model = hand-written Gallina mirror of generator.h, bracket.h, vee.h, *Tangent_base.h (hat, smallAdj, GeneratorEvaluator, VeeEvaluatorImpl, InnerWeights); tied to /repo by exact comparison over the rational scalar on this run's cases",
+                 "theorems are over Coq's classical reals (exact arithmetic, which is what the property's last sentence asks for); floating-point evaluation is only tested",
+                 "Bundle tangents: covered by C11's bundle model once claimed"],
 )
 
 # ------------------------------------------------------------------ generic engine
